@@ -223,6 +223,9 @@ func familySched(t *testing.T) {
 			o.expIn = time.Hour
 			tok := w.mintWith(o, rng)
 			a := tokenAnswer{kind: "ok", idToken: tok.raw, refresh: rt}
+			if round%4 >= 2 { // a provider that does not rotate refresh tokens: the answer has no refresh_token member, the session keeps its own
+				a.refresh = ""
+			}
 			refreshAns[rt] = a
 			return schedReq{b: b, rs: reqSpec{rawURI: path, refresh: &a}, kind: fmt.Sprintf("refresh%d", b)}
 		}
@@ -375,6 +378,17 @@ func familySched(t *testing.T) {
 					if q.kind == "anon" || q.kind == "garbage" {
 						if a, _ := jv["auth"].(bool); a || jv["a"] != "" || jv["email"] != "" || obs["class"] == "forward" {
 							T.oracle("C05", "an anonymous request received another request's session", M{"kind": q.kind, "jar": jv, "class": obs["class"]}, replay)
+						}
+					}
+					// the refresh token in a browser's cookies is its own: the one it had, or the one the provider answered its own grant with
+					if own := map[string]string{"refresh4": rt4, "refresh5": rt5, "auth2": "rt-two"}[q.kind]; own != "" {
+						if r, _ := jv["r"].(string); r != "" && r != w.tokID(own) {
+							T.oracle("C05", "a browser's cookies hold a refresh token that is not its own (another request's tokens)", M{"kind": q.kind, "stored": r, "own": w.tokID(own)}, replay)
+						}
+					}
+					if q.kind == "callback" || q.kind == "auth1" || q.kind == "anon" { // these browsers were never given a refresh token
+						if r, _ := jv["r"].(string); r != "" {
+							T.oracle("C05", "a browser that was never given a refresh token holds one (another request's tokens)", M{"kind": q.kind, "stored": r}, replay)
 						}
 					}
 					if obs["class"] == "forward" {
